@@ -395,6 +395,9 @@ class Evaluator:
             return b[int(e["member"])]
         raise Unknown("field access .%s on %r" % (e["member"], type(b)))
 
+    def e_array(self, e, env):
+        return [self.eval(x, env) for x in e["elems"]]
+
     def e_tuple(self, e, env):
         return tuple(self.eval(x, env) for x in e["elems"])
 
